@@ -1891,6 +1891,8 @@ struct ReportDataResponder<'a, 'b, 'c, const NE: usize, C> {
     events: &'a Events<NE>,
     /// Whether at least one `ReportData` message went out.
     sent: bool,
+    /// What is left of the space reserved for the tail of the message being built
+    reserve_left: usize,
 }
 
 impl<'a, 'b, 'c, const NE: usize, C> ReportDataResponder<'a, 'b, 'c, NE, C>
@@ -1916,7 +1918,35 @@ where
             event_reader,
             events,
             sent: false,
+            reserve_left: 0,
         }
+    }
+
+    /// Write message framing (the opening / closing of the report arrays) which must not
+    /// fail for lack of space: the bytes that do not fit in the regular area are taken out
+    /// of the space reserved for the tail of the message.
+    fn frame<F>(&mut self, wb: &mut WriteBuf<'_>, f: F) -> Result<(), Error>
+    where
+        F: FnOnce(&mut WriteBuf<'_>) -> Result<(), Error>,
+    {
+        let free = wb.empty_as_mut_slice().len();
+        let start = wb.get_tail();
+
+        wb.expand(self.reserve_left)?;
+
+        let result = f(wb);
+
+        let taken = if result.is_ok() {
+            (wb.get_tail() - start).saturating_sub(free)
+        } else {
+            wb.rewind_to(start);
+            0
+        };
+
+        self.reserve_left -= taken;
+        wb.shrink(self.reserve_left)?;
+
+        result
     }
 
     /// Respond to the request with a `ReportData` response, possibly with more than one
@@ -2019,7 +2049,7 @@ where
                 }
             }
 
-            wb.end_container()?;
+            self.frame(wb, |wb| wb.end_container())?;
         }
 
         Ok(true)
@@ -2037,7 +2067,9 @@ where
         let accessor = self.invoker.exchange().accessor(&metadata)?;
 
         if let Some(event_reqs) = self.req.event_requests()? {
-            wb.start_array(&TLVTag::Context(ReportDataRespTag::EventReports as _))?;
+            self.frame(wb, |wb| {
+                wb.start_array(&TLVTag::Context(ReportDataRespTag::EventReports as _))
+            })?;
 
             // Validate concrete event paths against node metadata
             // and emit EventStatusIB for non-wildcard paths that don't match
@@ -2123,7 +2155,7 @@ where
                 }
             }
 
-            wb.end_container()?;
+            self.frame(wb, |wb| wb.end_container())?;
         }
 
         Ok(true)
@@ -2274,9 +2306,10 @@ where
     }
 
     /// Start a reply by initializing the `WriteBuf` and writing the initial TLVs.
-    fn start_reply(&self, wb: &mut WriteBuf<'_>) -> Result<(), Error> {
+    fn start_reply(&mut self, wb: &mut WriteBuf<'_>) -> Result<(), Error> {
         wb.reset();
         wb.shrink(Self::LONG_READS_TLV_RESERVE_SIZE)?;
+        self.reserve_left = Self::LONG_READS_TLV_RESERVE_SIZE;
 
         wb.start_struct(&TLVTag::Anonymous)?;
 
@@ -2298,12 +2331,13 @@ where
 
     /// End a reply by writing the closing TLVs and potentially indicating that there are more chunks to send.
     fn end_reply(
-        &self,
+        &mut self,
         state: ReportDataChunkState,
         suppress_resp: bool,
         wb: &mut WriteBuf<'_>,
     ) -> Result<(), Error> {
-        wb.expand(Self::LONG_READS_TLV_RESERVE_SIZE)?;
+        wb.expand(self.reserve_left)?;
+        self.reserve_left = 0;
 
         match state {
             ReportDataChunkState::ChunkingAttributes | ReportDataChunkState::ChunkingEvents => {
